@@ -246,6 +246,9 @@ class DateTimeParser:
         """Parse the fractional second argument."""
         if self.has_more() and self.peek() == ".":
             self.vidx += 1
+            if not (self.has_more() and self.peek().isdigit()):
+                raise ValueError
+
             return self.parse_fixed_digits(9)
 
         return 0
